@@ -78,6 +78,14 @@ def tokenize(src, fname, line0=1):
             m = re.match(r"'[A-Za-z_]+", src[i:])
             toks.append(Tok("LIFETIME", m.group(0), line))
             i += len(m.group(0))
+        elif c == "r" and re.match(r"r#[A-Za-z_][A-Za-z0-9_]*", src[i:]):      # raw identifier r#type
+            m = re.match(r"r#([A-Za-z_][A-Za-z0-9_]*)", src[i:])
+            nm = m.group(1)
+            if nm in ("if", "let", "match", "for", "while", "loop", "fn", "mod", "use", "struct", "enum", "impl", "trait", "return",
+                      "break", "continue", "move", "as", "in", "else", "mut", "ref", "self"):
+                nm += "_raw"                      # a keyword used as a variable name
+            toks.append(Tok("ID", nm, line))
+            i += len(m.group(0))
         elif c.isalpha() or c == "_":
             m = re.match(r"[A-Za-z_][A-Za-z0-9_]*", src[i:])
             toks.append(Tok("ID", m.group(0), line))
